@@ -135,7 +135,11 @@ func predInit(c initCase, o *evid.Obs) error {
 	}
 	o.Tag(fmt.Sprintf("attempts:%d", min(attempts, 8)), fmt.Sprintf("faults-fired:%d", min(len(in.Fired)+in.FiredAdmin, 6)))
 	for _, f := range in.Fired {
-		o.Tag("fault:" + string(f.Fault) + "@" + stmtClass(f))
+		ek := in.KindOf(f)
+		if ek == "" {
+			ek = "plain"
+		}
+		o.Tag("fault:"+string(f.Fault)+"@"+stmtClass(f), "error:"+ek)
 	}
 	if in.FiredAdmin > 0 {
 		o.Tag("fault:before@create-database")
